@@ -1854,7 +1854,9 @@ def replace_pad_by_hw_pad(op: Operation, arch, nng) -> Operation:
         if not _leading_pad_ok(top, k.stride.y, k_h) or not _leading_pad_ok(left, k.stride.x, k_w):
             return op
 
-        if op.type.is_avgpool_op():
+        if op.type.is_avgpool_op() and (top or left or bottom or right):
+            # (A PAD that pads nothing is simply bypassed below: the average pool - which may be the 1x1 copy of a
+            # concatenation, writing only a slice of its OFM tensor - stays what it is.)
             # For average pool, hardware padding can only be used if padding is 0 or kernel size / 2
             for pad, k_size in (
                 (left, k_w),
